@@ -213,6 +213,7 @@ def c04(tier, replay=None):
         plans = [("main-d4", dict(MaxHist=4), "states"),
                  ("nested-d2", dict(SCRIPT="ScriptNest", MaxHist=2, MaxId=3, CODES='{"a", "b", "B", "bad"}'), "states"),
                  ("parse-d4", dict(DOCS="MCDocs", MaxHist=4, MaxId=3, CSLOTS="MCCSlots2", LSLOTS="MCLSlots1", CATS='{"", "k"}', NAMES='{"_x", "_y", "_z", "bad"}', MaxNames=1, MaxPkt=1, PVALS='{"s1"}'), "states"),
+                 ("loopnull-d6", dict(CODES='{"a"}', CATS='{"NULL"}', VALS='{"s1"}', PVALS='{"s1", "s2"}', MaxNames=1, MaxLast=4, NAMES='{"_x"}', MaxPkt=1, SCRIPT="ScriptLoopN", MaxHist=6, CSLOTS="MCCSlots1", LSLOTS="MCLSlots1"), "states"),
                  ("twin-d2", dict(SCRIPT="ScriptTwin", MaxHist=2, MaxId=2, CODES='{"a", "b"}', NAMES='{"_x", "_y", "bad"}', CATS='{"NULL", "", "k"}', MaxNames=1, MaxPkt=1), "states"),
                  ("two-cifs-d4", dict(CIFS='{"c1", "c2"}', MaxHist=4, CSLOTS="MCCSlots2", NAMES='{"_x", "_X", "bad"}', CODES='{"a", "A"}', CATS='{"NULL", ""}', MaxNames=1, MaxPkt=1), "states")]
     else:
@@ -267,9 +268,12 @@ def c06(tier, replay=None):
     covs, opcov, alljobs = [], collections.Counter(), []
     itr_only = dict(CODES='{"a"}', CATS='{"k"}', VALS='{"s1"}', MaxNames=2, MaxLast=3)
     if tier == "quick":
-        plans = [("loop3-d4", dict(itr_only, SCRIPT="ScriptLoop", MaxHist=4, NAMES='{"_x", "_y", "_z"}', MaxPkt=2), "states")]
+        plans = [("loop3-d4", dict(itr_only, SCRIPT="ScriptLoop", MaxHist=4, NAMES='{"_x", "_y", "_z"}', MaxPkt=2), "states"),
+                 # a loop without category: iterate, remove, close, then add packets again (row numbering after removal)
+                 ("loopnull-d6", dict(CODES='{"a"}', CATS='{"NULL"}', VALS='{"s1"}', PVALS='{"s1", "s2"}', MaxNames=1, MaxLast=4, NAMES='{"_x"}', MaxPkt=1, SCRIPT="ScriptLoopN", MaxHist=6, CSLOTS="MCCSlots1", LSLOTS="MCLSlots1"), "states")]
     else:
         plans = [("loop3-d6", dict(itr_only, SCRIPT="ScriptLoop", MaxHist=6, NAMES='{"_x", "_y", "_z"}', MaxPkt=2), "states"),
+                 ("loopnull-d7", dict(CODES='{"a"}', CATS='{"NULL"}', VALS='{"s1"}', PVALS='{"s1", "s2"}', MaxNames=1, MaxLast=5, NAMES='{"_x"}', MaxPkt=1, SCRIPT="ScriptLoopN", MaxHist=7, CSLOTS="MCCSlots1", LSLOTS="MCLSlots1"), "states"),
                  ("loop1-d5", dict(itr_only, SCRIPT="ScriptLoop1", MaxHist=5, NAMES='{"_x", "_X", "_y", "_z"}', MaxPkt=2, PVALS='{"s1", "s2", "u"}'), "states")]
     for name, params, mode in plans:
         # the thorough graphs have 1e5 states and more: TLC checks the properties on all of them, a seeded sample is replayed
